@@ -225,8 +225,9 @@ def nt_copy(feat, script, canon):
 
 register(
     "C19",
-    lean_modules=["EventppVerif.Properties.C19"],
-    theorems=["Evp.minv_runN"],
+    lean_modules=["EventppVerif.Properties.C19", "EventppVerif.Properties.C02bridge"],
+    theorems=["Evp.minv_runN", "Evp.PL.bridge_wrapReset"],
+    fragments=["ClFrag"],
     suites=[cl_suite("wrap", 400, 12000, rule="the re-entrant programs of C02 with `setcounter L k` (currentCounter := 2^32 - k, k in 0..6, through -fno-access-control as the unit "
                      "tests do) placed anywhere, also inside callbacks of a running invocation, so that the wrap happens at any point of the history; distinct = distinct "
                      "canonical output; non-trivial = script places the counter, has callback behaviours and >=3 calls", nontrivial=nt_wrap)],
